@@ -231,7 +231,48 @@ def twin(b0: int, b1: int, b2: int, b3: int, b4: int, b5: int, b6: int, b7: int,
     return judge_cover(fam, frozenset(U[:k])) is None
 
 
+# ---- families given as an increasing tuple of subset indices (no wasted paths: used by the thorough tier for |U| = 4) ----
+def pre_idx(c: int, i1: int, i2: int, i3: int, i4: int, i5: int) -> bool:
+    k = CFG.get("k", 4)
+    n = 2 ** k - 1
+    idx = [i1, i2, i3, i4, i5]
+    if not (1 <= c <= CFG.get("max_sets", 5)) or c != CFG.get("count", c):
+        return False
+    if any(x != 0 for x in idx[c:]):
+        return False
+    prev = -1
+    for x in idx[:c]:
+        if not (prev < x < n):
+            return False
+        prev = x
+    return idx[0] == CFG.get("first", idx[0])
+
+
+def family_idx(c: int, idx: list[Any], k: int) -> set[frozenset]:
+    subs = subsets(k)
+    return {subs[i] for i in idx[:c]}
+
+
+def check_idx(c: int, i1: int, i2: int, i3: int, i4: int, i5: int) -> bool:
+    """
+    pre: pre_idx(c, i1, i2, i3, i4, i5)
+    post: _
+    """
+    path_tick()
+    k = CFG.get("k", 4)
+    fam = family_idx(c, [i1, i2, i3, i4, i5], k)
+    if CFG.get("kind") == "gates":
+        return judge_gates(fam, k, bool(CFG.get("extra"))) is None
+    return judge_cover(fam, frozenset(U[:k])) is None
+
+
 def replay(args: list[Any], c: dict[str, Any]) -> dict[str, Any]:
+    if c.get("idx"):
+        k = c.get("k", 4)
+        a = [int(x) for x in args]
+        fam = family_idx(a[0], a[1:6], k)
+        msg = judge_gates(fam, k, bool(c.get("extra"))) if c.get("kind") == "gates" else judge_cover(fam, frozenset(U[:k]))
+        return {"violates": msg is not None, "sig": c.get("kind", "cover"), "what": msg or "kernel result is sound and complete"}
     k = c.get("k", 3)
     fam = family([int(a) for a in args], k)
     if c.get("kind") == "gates":
